@@ -7,6 +7,8 @@ script (mini interpreter).  See DESIGN.md 4 "C04".
 """
 from __future__ import annotations
 
+import random
+import re
 import time
 
 from hypothesis import strategies as st
@@ -17,11 +19,13 @@ from vlib.common import HarnessError, Result, RunContext, Violation, conclude, d
 
 RULE = ("Hypothesis draws well-formed definition closures (vlib.defgen.programs: 1-6 files, any import graph, constants and "
         "expressions, aliases of natives/aliases, nested structs and messages, scalar/array fields with literal or expression lengths, "
-        "signals, reserved ids, field-list reuse, auto-padding, aliases of imported structs (also as field types), structs holding "
+        "signals, reserved ids, field-list reuse, auto-padding, float constants (three programs out of four get 3-8 extra ones: literals of up "
+        "to 17 significant digits in every magnitude, negative values, and * + - / expressions over them), aliases of imported structs (also as field types), structs holding "
         "imported messages, string constants with quotes/backslashes, names containing MT_/MID_/HID_; validate_alignment on, auto_pad and "
         "import_coredefs drawn), preceded in every shard by a covering family in which each of the 26 native "
         "type names is a scalar field, an array element, an alias target used as scalar and as array, inside nested structs and struct "
-        "arrays, compiled with the core definitions on and off.  Each program is compiled for real; ids, constants, string constants, "
+        "arrays, plus 23 numeric constants (long literals, huge/tiny/negative values, products, sums, differences and quotients such as "
+        "0.1*3 and 1/30000), compiled with the core definitions on and off.  Each program is compiled for real; ids, constants, string constants, "
         "module and host ids, hash values, field names/order/array lengths/element kind, width and signedness (as far as the language "
         "carries them) of every message and struct are compared between the generator's expectation, the parser model, Python "
         "(ctypes), C (gcc probe: sizeof/_Alignof/offsetof/_Generic), JavaScript (node) and MATLAB (interpreter); sizeof/offsetof from "
@@ -31,6 +35,8 @@ ASSUME = [
     "no MATLAB/Octave in the sandbox: the .m output is executed by vlib.langs.matlab_run, an interpreter for the statement subset the back end emits",
     "JavaScript objects carry no element widths: for JS 'element type' means string / number / nested object; char[n] may be one string (length not carried) or n one-char strings",
     "MATLAB holds char data as int8: char and int8 are not told apart there",
+    "constant values are compared exactly (identical doubles; every back end prints Python's shortest round-trip repr); 2.0 and 2 count as the same number for JavaScript and MATLAB, which have one number type, while Python and C must also agree on int versus float",
+    "constant expressions use the operators the documentation and the shipped examples show (* + - and parentheses) and '/', which the compiler evaluates with the same arithmetic",
     "a length-1 array and a scalar are the same bytes and are treated as equal (the Python back end emits a scalar, C emits x[1])",
     "the C header is probed only for closures that do not use core type names (the header omits the core definitions on purpose: C clients include RTMA.h, which is not part of the repository)",
     "programs are compiled with validate_alignment on (switching it off is the user's explicit opt-out of the layout guarantee)",
@@ -43,6 +49,111 @@ ALLOW = ("prefix-names", "zero-length")  # zero-length: rejected by the compiler
 # classes that were tied to compiler defects which are repaired now: part of the normal domain, kept at a moderate weight
 FORMER = ("alias-of-imported-struct", "alias-of-imported-struct-field", "struct-contains-message", "string-special")
 PREFIXES = ("MT_", "MID_", "HID_")
+
+
+# ------------------------------------------------------------------------------------------------
+# float constants that need up to 17 significant digits (local addition to the generator: defgen's own float constants are short)
+
+COVER_CONSTS = [
+    # literals: many digits, large magnitude with a fraction, tiny, negative, integral float
+    ("CVF_PI", "3.14159265358979"), ("CVF_E17", "2.7182818284590451"), ("CVF_BIG", "1234567.5"), ("CVF_BIGGER", "98765432109.876541"),
+    ("CVF_TINY", "1.0e-9"), ("CVF_TINY17", "6.0221407599999999e-23"), ("CVF_NEG", "-0.12345678901234568"), ("CVF_NEGBIG", "-40000000.000000007"),
+    ("CVF_TWO", "2.0"), ("CVF_TENTH", "0.1"), ("CVF_HUGE", "1.7976931348623157e+308"), ("CVF_E16", "12345678901234567.0"),
+    ("CVF_RATE", "30000"), ("CVF_THREE", "3"),
+    # expressions (documented operators * + - and parentheses; / is evaluated by the same eval and gives a float)
+    ("CVX_PROD", "CVF_TENTH * CVF_THREE"), ("CVX_SUM", "CVF_TENTH + 0.2"), ("CVX_DIFF", "CVF_PI - CVF_E17"),
+    ("CVX_PERIOD", "1/CVF_RATE"), ("CVX_QUOT", "CVF_PI / CVF_THREE"), ("CVX_MIX", "(CVF_BIG + CVF_TENTH) * CVF_NEG"),
+    ("CVX_CHAIN", "CVX_PROD * CVX_PERIOD"), ("CVX_NEGSUB", "CVF_TENTH - CVF_NEG"), ("CVX_INT", "CVF_RATE * CVF_THREE + 1"),
+]
+
+
+def eval_const(text, env):
+    """Value of a constant's YAML text the way the documentation defines it: earlier constants are replaced by their
+    value (as text), the rest is arithmetic."""
+    expr = text
+    for sym in dict.fromkeys(re.findall(r"\b[a-zA-Z_]+\w*\b", text)):
+        expr = re.sub(rf"\b{sym}\b", str(env[sym]), expr)
+    if not re.fullmatch(r"[0-9a-fA-FxX.+\-*/() eE]*", expr):
+        raise HarnessError(f"unexpected constant expression {text!r}")
+    return eval(expr, {"__builtins__": {}}, {})
+
+
+def const_defs(pairs, path, env=None):
+    env = dict(env or {})
+    out = []
+    for name, text in pairs:
+        v = eval_const(text, env)
+        if isinstance(v, float) and (v != v or v in (float("inf"), float("-inf"))):
+            raise OverflowError(text)
+        env[name] = v
+        out.append(G.Def(kind="constant", name=name, file=path, value=v, text=text))
+    return out
+
+
+def enrich_constants(program: G.Program, seed: int) -> G.Program:
+    """Append 3-8 float constants (literals of up to 17 significant digits in every magnitude, negative values, and
+    expressions over them and over the file's earlier numeric constants) to one file of a generated program."""
+    rnd = random.Random(seed)
+    p = program.clone()
+    spec = rnd.choice(p.specs)
+    taken = {d.name for d in p.defs}
+    if p.import_coredefs:
+        taken |= set(G.core_defs()["names"])
+    pairs, names = [], []
+
+    def fresh(prefix):
+        k = len(pairs)
+        n = f"{prefix}_{k}_{rnd.randrange(1000)}"
+        while n in taken:
+            n += "X"
+        taken.add(n)
+        return n
+
+    def literal():
+        kind = rnd.randrange(6)
+        if kind == 0:
+            v = rnd.random() * 10 ** rnd.randint(-3, 3)
+        elif kind == 1:
+            v = rnd.randint(10 ** 5, 10 ** 11) + rnd.random()
+        elif kind == 2:
+            v = rnd.random() * 10 ** rnd.randint(-30, -6)
+        elif kind == 3:
+            v = -rnd.random() * 10 ** rnd.randint(-8, 8)
+        elif kind == 4:
+            v = float(rnd.randint(1, 10 ** 6))
+        else:
+            v = rnd.choice([0.1, 0.2, 0.7, 1.1, 2.675, 1e16 + 2.0, 5e-324, 1 / 3])
+        return repr(v)
+
+    nlit = rnd.randint(2, 4)
+    for _ in range(nlit):
+        n = fresh("FLIT")
+        pairs.append((n, literal()))
+        names.append(n)
+    # earlier numeric constants of the same file may take part (they are visible to constants appended after them)
+    local = [d.name for d in spec.defs if d.kind == "constant" and isinstance(d.value, (int, float)) and not isinstance(d.value, bool) and d.value != 0]
+    for _ in range(rnd.randint(1, 4)):
+        pool = names + local[:6]
+        a, b, c = rnd.choice(pool), rnd.choice(pool), rnd.choice(names)
+        text = rnd.choice([f"{a} * {b}", f"{a} + {c}", f"{a} - {c}", f"({a} + {b}) * {c}", f"{a} / {c}", f"1/{c}", f"{c} * 3", f"0.1 * {a}",
+                           f"{a} * {b} * {c}", f"{c} * 0.30000000000000004"])
+        n = fresh("FEXP")
+        pairs.append((n, text))
+        names.append(n)
+    env = {d.name: d.value for d in p.defs if d.kind == "constant"}
+    try:
+        new = const_defs(pairs, spec.path, env)
+    except (OverflowError, ZeroDivisionError):
+        return program
+    if any(isinstance(d.value, float) and (d.value != d.value or d.value in (float("inf"), float("-inf"))) for d in new):
+        return program
+    spec.defs.extend(new)
+    p.classes |= {"const-float-17", "const-expr-float"}
+    p.rerender()
+    probs = p.problems()
+    if probs:
+        raise HarnessError(f"enrich_constants produced an ill-formed program: {probs[:2]}")
+    return p
 
 
 # ------------------------------------------------------------------------------------------------
@@ -89,12 +200,17 @@ def covering_program(core: bool, variant: int) -> G.Program:
     defs.append(G.Def(kind="module", name="CV_MODULE", file=path, value=42))
     defs.append(G.Def(kind="host", name="CV_HOST", file=path, value=77))
     defs.append(G.Def(kind="constant", name="CV_CONST", file=path, value=123, text="123"))
+    defs += const_defs(COVER_CONSTS, path)
     # section order of the parser: constants, strings, aliases, hosts, modules, structs, messages
     order = {"constant": 0, "string": 1, "alias": 2, "host": 3, "module": 4, "struct": 5, "message": 6, "signal": 6}
     defs.sort(key=lambda d: order[d.kind])
     spec = G.FileSpec(path=path, defs=defs)
-    return G.Program([spec], path, {"auto_pad": True, "validate_alignment": True, "import_coredefs": core}, "single",
-                     {"covering", "alias-native", "alias-of-alias", "struct-array", "array-literal", "nested-depth-2"})
+    p = G.Program([spec], path, {"auto_pad": True, "validate_alignment": True, "import_coredefs": core}, "single",
+                  {"covering", "alias-native", "alias-of-alias", "struct-array", "array-literal", "nested-depth-2", "const-float-17", "const-expr-float"})
+    probs = p.problems()
+    if probs:
+        raise HarnessError(f"covering program is ill-formed: {probs[:2]}")
+    return p
 
 
 # ------------------------------------------------------------------------------------------------
@@ -204,6 +320,15 @@ def run_case(E: L.Examiner, program: G.Program, res: Result = None):
     """Examine one program; returns [(key, what)]."""
     opts = program.compile_kwargs()
     expect = L.sig_from_program(program)
+    # int versus float of a constant: from an own evaluation of its text (16 / 2 is 8.0); the value must be the generator's
+    env = dict(G.core_defs()["constants"]) if program.import_coredefs else {}
+    for d in program.defs:
+        if d.kind == "constant":
+            v = eval_const(d.text, env) if isinstance(d.text, str) else d.value
+            if v != d.value:
+                raise HarnessError(f"constant {d.name}: text {d.text!r} evaluates to {v!r}, the generator's model says {d.value!r}")
+            env[d.name] = v
+            expect["constants"][d.name] = v
     ex = E.examine(program, opts, expect=expect)
     if res is not None:
         res.inconclusive += len(ex.timeouts)
@@ -220,7 +345,8 @@ def run_case(E: L.Examiner, program: G.Program, res: Result = None):
         res.count("core-imported" if program.import_coredefs else "core-not-imported")
         res.count("auto-pad" if program.auto_pad else "no-auto-pad")
         for c in program.classes:
-            if c in ALLOW or c in FORMER or c in ("needs-padding", "alias-field", "struct-array", "reuse", "message-in-message", "expr-length", "covering"):
+            if c in ALLOW or c in FORMER or c in ("needs-padding", "alias-field", "struct-array", "reuse", "message-in-message", "expr-length", "covering",
+                                                   "const-float-17", "const-expr-float", "const-float", "const-expr"):
                 res.count("class/" + c)
         nontrivial, sh = shape_of(program)
         if nontrivial:
@@ -229,6 +355,10 @@ def run_case(E: L.Examiner, program: G.Program, res: Result = None):
         for d in program.defs:
             if d.kind in ("struct", "message"):
                 res.count("definitions-compared")
+            elif d.kind == "constant" and isinstance(d.value, float):
+                res.count("float-constants-compared")
+                if len(repr(d.value).replace("-", "").replace(".", "").split("e")[0].strip("0")) > 12:
+                    res.count("float-constants-needing-13-17-digits")
     return fnd
 
 
@@ -254,7 +384,10 @@ def shard(seed, n, idx, quick):
             types = sorted(G.NATIVES)
             res.notes.append(f"covering family: each of the {len(types)} native names as scalar, array element and alias target (scalar and array), core on and off")
 
-        def body(program):
+        def body(v):
+            program, cseed = v
+            if cseed % 4:  # three programs out of four get the long float constants
+                program = enrich_constants(program, cseed)
             one(program, "random-programs")
             if len(res.samples) < 2 and program.classes:
                 res.sample({"shape": program.shape, "options": program.options, "classes": sorted(program.classes)[:20], "files": list(program.files)})
@@ -263,7 +396,7 @@ def shard(seed, n, idx, quick):
         opt = G.programs(validate_alignment=True, allow=ALLOW)
         former = G.programs(validate_alignment=True, allow=FORMER, skeleton=True)
         nocore = G.programs(validate_alignment=True, import_coredefs=False, rich=True)
-        hyp_run(body, st.one_of(base, nocore, former, nocore, opt, former), seed, n, res, collect=True)
+        hyp_run(body, st.tuples(st.one_of(base, nocore, former, nocore, opt, former), st.integers(0, 2 ** 32)), seed, n, res, collect=True)
     finally:
         E.close()
         L.cleanup()
